@@ -145,7 +145,7 @@ func subsetsOf(xs []string, maxN int) [][]string {
 	var out [][]string
 	for mask := 1; mask < 1<<n; mask++ {
 		var s []string
-		for i := 0; i < n; i++ {
+		for i := 0; i < n && !timeUp("props_tree.go:148"); i++ {
 			if mask&(1<<i) != 0 {
 				s = append(s, xs[i])
 			}
@@ -372,7 +372,7 @@ func init() {
 		res.Rule = "the C01 tree generator (all shapes incl. refs under OR, repeated and re-spelled terms). Non-trivial & distinct = (tree shape, set of canonical terms) of a non-leaf tree"
 		// add re-spelled duplicates: handled by the term generator's case mutation + explicit pairs below
 		runTreeProperty(c06Check, scale(8000, 150000), scale(5, 7), scale(4, 5))
-		for i := 0; i < scale(300, 3000); i++ {
+		for i := 0; i < scale(300, 3000) && !timeUp("props_tree.go:375"); i++ {
 			a := genValidTerm()
 			if a.isRef {
 				continue
@@ -539,7 +539,7 @@ func init() {
 	props["C07"] = func() {
 		res.Rule = "random (expression, allowed list) pairs from the C01 generator; for each: a random permutation, the reversal, a duplication, a full duplication, a re-spelling (case of listed ids, surrounding spaces/parentheses) and a random valid extension; thorough adds every permutation of lists up to 5 entries. Non-trivial & distinct = (expression, allowed set) with >= 2 entries or a non-leaf expression"
 		n := scale(5000, 60000)
-		for i := 0; i < n; i++ {
+		for i := 0; i < n && !timeUp("props_tree.go:542"); i++ {
 			c := genTreeCase(scale(4, 6), 5)
 			k := c.kase()
 			res.Evaluations++
@@ -741,7 +741,7 @@ func init() {
 	props["C10"] = func() {
 		res.Rule = "a random tree over 2-5 distinct valid terms and a chain of 1-6 random rewrites (commutativity, associativity, idempotence, absorption, distribution/factoring) plus re-rendering with other spacing/parentheses; verdicts compared under every non-empty subset of the terms, extracted sets compared when the rewrite chain kept the set of terms; plus the (E) AND/OR (F) composition law. Non-trivial & distinct = (shape before, shape after) pairs"
 		n := scale(2500, 40000)
-		for i := 0; i < n; i++ {
+		for i := 0; i < n && !timeUp("props_tree.go:744"); i++ {
 			nt := 2 + rng.Intn(4)
 			terms := distinctTerms(nt)
 			t1 := genTree(1+rng.Intn(scale(3, 4)), nt)
